@@ -1,6 +1,6 @@
 (* C03 property theorems.  Statements + exact + Print Assumptions only. *)
 From ZV.Common Require Import Base Run.
-From ZV.C03 Require Import Model ProofsMem ProofsMixed ProofsZip.
+From ZV.C03 Require Import Model ProofsMem ProofsMixed ProofsZip ProofsSimple.
 Open Scope N_scope.
 
 (* MemoryBlobStore: for EVERY history of put/put_batch/remove/get+contains+size/len issuing fewer than 2^32-1 ids,
@@ -77,3 +77,11 @@ Theorem zip_absent :
     zip_get decomp c st id = None /\ zip_contains st id = false.
 Proof. exact zip_absent_closed. Qed.
 Print Assumptions zip_absent.
+
+(* SimpleZipBlobStore::fragment_record: for every configuration accepted by validate() (1 <= min_frag_len <= max_frag_len)
+   and every record, the fragments concatenate back to the record (the loop terminates within `length rec` steps) *)
+Theorem simplezip_fragment_lossless :
+  forall c rec, 1 <= q_min c -> q_min c <= q_max c -> concat (fragment c rec) = rec.
+Proof. exact fragment_lossless_proof. Qed.
+Check simplezip_fragment_lossless : forall c rec, 1 <= q_min c -> q_min c <= q_max c -> concat (fragment c rec) = rec.
+Print Assumptions simplezip_fragment_lossless.
